@@ -360,15 +360,22 @@ func failingEnactments(r *hx.Rng, seed uint64) *History {
 			tx(0, fmt.Sprintf("vote %d", w.proposals), govtypes.NewMsgVoteProposal(uint64(w.proposals), a0, govtypes.OptionYes, sdk.ZeroDec())))
 	}
 	twice := func(mk func() govtypes.Content) { add(mk()); add(mk()) }
-	twice(func() govtypes.Content { return govtypes.NewWhitelistAccountPermissionProposal(w.acc[1].Addr, govtypes.PermClaimCouncilor) })
-	twice(func() govtypes.Content { return govtypes.NewBlacklistAccountPermissionProposal(w.acc[2].Addr, govtypes.PermClaimValidator) })
+	twice(func() govtypes.Content {
+		return govtypes.NewWhitelistAccountPermissionProposal(w.acc[1].Addr, govtypes.PermClaimCouncilor)
+	})
+	twice(func() govtypes.Content {
+		return govtypes.NewBlacklistAccountPermissionProposal(w.acc[2].Addr, govtypes.PermClaimValidator)
+	})
 	twice(func() govtypes.Content {
 		return govtypes.NewCreateRoleProposal("dupe", "created twice", []govtypes.PermValue{govtypes.PermClaimCouncilor}, nil)
 	})
 	twice(func() govtypes.Content { return govtypes.NewAssignRoleToAccountProposal(w.acc[3].Addr, "validator") })
-	twice(func() govtypes.Content { return govtypes.NewWhitelistRolePermissionProposal("validator", govtypes.PermCreatePollProposal) })
-	twice(func() govtypes.Content { return govtypes.NewUnassignRoleFromAccountProposal(w.acc[0].Addr, "nosuchrole") })
-	twice(func() govtypes.Content { return govtypes.NewRemoveRoleProposal("nosuchrole") })
+	twice(func() govtypes.Content {
+		return govtypes.NewWhitelistRolePermissionProposal("validator", govtypes.PermCreatePollProposal)
+	})
+	twice(func() govtypes.Content {
+		return govtypes.NewUnassignRoleFromAccountProposal(w.acc[5].Addr, "validator") // not assigned: refused at submission on every replica
+	})
 	h.Blocks = []BlockSpec{
 		{Req: abci.BlockReq{Dt: 5}, Txs: b1},
 		{Req: abci.BlockReq{Dt: 200}, Txs: []TxSpec{w.bankSend()}},
